@@ -31,7 +31,7 @@ REAL = ['py4hw.simulation.Simulator.clk/_clk_cycle/stop', 'py4hw.base.Wire.prepa
 STUB = ['stimulus (wire.put between clk calls)', 'cancelling listener']
 ASSUMPTIONS = ['inputs change only between clk calls, identically in both systems',
                'reference models in dsim/catalog.py']
-PROBES = ['edge_aborted_by_exception', 'clk_from_inside_listener', 'parameter_reassigned_after_read', 'bidir_sequential', 'simulator_fetched_in_clock', 'fsm_block', 'swap_pair', 'ring', 'memory', 'split_clk', 'stop_cancel', 'multi_driver']
+PROBES = ['stop_from_clock_method', 'edge_aborted_by_exception', 'clk_from_inside_listener', 'parameter_reassigned_after_read', 'bidir_sequential', 'simulator_fetched_in_clock', 'fsm_block', 'swap_pair', 'ring', 'memory', 'split_clk', 'stop_cancel', 'multi_driver']
 
 
 def gen(rs, tier, index):
@@ -70,6 +70,14 @@ def gen(rs, tier, index):
         n = rng.choice([4, 6, 10, 16]) if tier == 'quick' else rng.choice([6, 12, 24, 40])
         d = netlist.gen_design(rng, n, comb, hier_depth=rng.choice([0, 1, 2]), feedback=rng.choice([0.2, 0.4, 0.6]),
                                seq_kinds=seqk, seq_frac=rng.choice([0.5, 0.7, 0.85]), maxw=40)
+    stopblk = None
+    if not abort and not d.get('ring') and d['inputs'] and rng.random() < 0.3:
+        # a bench block that can end a clk(n) call from inside its clock() method
+        stopblk = max(n_['id'] for n_ in d['nodes']) + 1
+        src = rng.choice(d['inputs'])
+        d['nodes'].append({'id': stopblk, 'kind': 'StopBlock', 'p': {}, 'ins': [src['name']], 'ow': [src['w']], 'grp': []})
+        d['outputs'].append('n%d.0' % stopblk)
+        d['order'].append(stopblk)
     # extra ungated clock drivers on some groups (perm_drivers)
     groups = sorted({'/'.join(n['grp'][:k]) for n in d['nodes'] for k in range(1, len(n['grp']) + 1)})
     gd = {}
@@ -106,6 +114,8 @@ def gen(rs, tier, index):
         faults = [f for f in ('resort', 'sim_restart') if fr.random() < 0.12]
         steps.append({'vec': vec, 'n': n, 'parts': parts, 'stop_at': stop_at, 'faults': faults,
                       'pseed': rs.sub('perm%d' % si)})
+        if stop_at is not None and stopblk is not None and fr.random() < 0.6:
+            steps[-1]['stop_from'] = stopblk          # the stop request comes from the clock() method of this block
         if abort and fr.random() < 0.4:
             steps[-1]['throw'] = netlist.gen_vector(sr, d['inputs'], vec)[:-1] + [1]     # the inputs of the edge that is aborted
         if len(parts) == 1 and stop_at is None and fr.random() < 0.08:
@@ -154,7 +164,7 @@ class Stopper:
 def leaf_state(obj):
     out = {}
     for k, v in vars(obj).items():
-        if k in ('name',):
+        if k in ('name',) or k.startswith('_'):
             continue
         if type(v) is int:
             out[k] = v
@@ -239,6 +249,11 @@ def run(scn, log, st):
                 st.fault('edge_aborted_by_exception')
                 st.probe('edge_aborted_by_exception')
                 after_abort = True      # some blocks were clocked, nothing was settled: the edge does not count
+                # what the caller sees when it catches the exception: the netlist settled for the inputs of that edge, no
+                # register output changed
+                twin.set_inputs(step['throw'])
+                twin.settle()
+                netlist.compare(b, twin.values(), si, 'right after the exception of the aborted edge in step %d' % si, sigprefix='twin-mismatch:aborted')
         b.set_inputs(step['vec'])
         twin.set_inputs(step['vec'])
         ref.set_inputs(step['vec'])
@@ -260,7 +275,15 @@ def run(scn, log, st):
             if k <= 0:
                 continue
             before = sim.total_clks
-            if pend_stop is not None and done < pend_stop <= done + k:
+            sblk = b.objs.get(step.get('stop_from')) if step.get('stop_from') is not None else None
+            if pend_stop is not None and done < pend_stop <= done + k and sblk is not None:
+                sblk._at = sblk.edges + (pend_stop - done)
+                expect = pend_stop - done
+                pend_stop = None
+                st.fault('stop_cancel')
+                st.probe('stop_from_clock_method')
+                stopper.at = None
+            elif pend_stop is not None and done < pend_stop <= done + k:
                 stopper.at = stopper.count + (pend_stop - done)
                 expect = pend_stop - done
                 pend_stop = None
